@@ -353,6 +353,14 @@ class Gen(object):
         e = self.entry(st, c)
         d = {'op': 'alloc_put', 'v': self.v()}
         d.update(e)
+        if d['v'] < 12 and d['allocs'] and self.rnd.random() < 0.3:
+            # list form: the same provider named twice (the last entry replaces the first)
+            a = self.rnd.choice(d['allocs'])
+            dup = {'u': a['u'], 'res': [dict(x) for x in a['res']]}
+            if self.rnd.random() < 0.5:
+                for x in dup['res']:
+                    x['amt'] = max(1, x['amt'] + self.rnd.choice([-1, 1, 2]))
+            d['allocs'] = d['allocs'] + [dup] if self.rnd.random() < 0.5 else [dup] + d['allocs']
         return d
 
     def alloc_post(self, st):
@@ -484,13 +492,15 @@ def unique_keys(req):
     """A JSON object cannot name a key twice: lists that are rendered as
     objects (resources of a provider, allocations of a consumer, inventories
     of a provider) keep one item per key, as the rendered request does."""
-    def fix_allocs(allocs):
-        allocs = _last_wins(allocs, 'u')
+    def fix_allocs(allocs, keep_dup_providers=False):
+        if not keep_dup_providers:
+            allocs = _last_wins(allocs, 'u')
         for a in allocs:
             a['res'] = _last_wins(a['res'], 'rc')
         return allocs
     if 'allocs' in req:
-        req['allocs'] = fix_allocs(req['allocs'])
+        # the list form below 1.12 can name a provider twice (the last entry wins)
+        req['allocs'] = fix_allocs(req['allocs'], keep_dup_providers=(req.get('op') == 'alloc_put' and req.get('v', 39) < 12))
     for e in req.get('entries', []):
         e['allocs'] = fix_allocs(e['allocs'])
     if req.get('op') == 'alloc_post':
